@@ -413,6 +413,36 @@ async fn episode(p: &EpParams, case: u64, pass: u64) -> EpReport {
         }
     }
 
+    // --- nothing is wedged: every subscription can still be deleted, and its name used again -----------
+    for (s, t) in post.subs.iter() {
+        match tokio::time::timeout(Duration::from_secs(3600), cx.delete_sub(s)).await {
+            Err(_) => {
+                rep.viol("C16", format!("C16:wedge:delete-after:{}+{}", kind, setting), format!("after {}: DeleteSubscription {} was never answered", label, short(s)));
+                continue;
+            }
+            Ok(Err(e)) => {
+                rep.viol("C16", format!("C16:delete-after:{}:code={}", kind, e.code() as i32), format!("after {}: DeleteSubscription of the existing {} answered {}", label, short(s), e.message()));
+                continue;
+            }
+            Ok(Ok(())) => {}
+        }
+        if !post.topics.contains(t) {
+            continue;
+        }
+        match tokio::time::timeout(Duration::from_secs(3600), cx.create_sub(s, t, 10)).await {
+            Ok(Ok(_)) => {
+                w.settle().await;
+                let listed = cx.list_topic_subs(t, 1000, "").await.map(|(v, _)| v.contains(s)).unwrap_or(false);
+                if !listed {
+                    rep.viol("C16", format!("C16:attach:recreated-after:{}+{}", kind, setting), format!("after {}: {} deleted and created again on {} is not attached", label, short(s), short(t)));
+                }
+                rep.inc("names_reused_after_abandonment");
+            }
+            Ok(Err(e)) => rep.viol("C16", format!("C16:recreate-after:{}:code={}", kind, e.code() as i32), format!("after {}: creating {} again answered {}", label, short(s), e.message())),
+            Err(_) => rep.viol("C16", format!("C16:wedge:recreate-after:{}+{}", kind, setting), format!("after {}: creating {} again was never answered", label, short(s))),
+        }
+    }
+
     rep.nontrivial = !completed;
     if !completed {
         rep.inc("abandoned_mid_flight");
